@@ -10,7 +10,7 @@ import z3
 
 from pyvc.core import (SV, SInt, SBool, SSeq, Obj, Val, VNone, BoolS, IntS, to_val, to_int, PyRaise, run, run_raises,
                        run_exc, sub, cls_const)
-from pyvc.driver import Ob
+from pyvc.driver import Ob, cover_hyps
 from pyvc.ground import Q
 from pyvc.stmt import LoopSpec
 from props import routine_world as rw
@@ -40,7 +40,7 @@ def init_obligations(chk, mod, cls):
     for pi, (path, out, obls, writes, cur) in enumerate(results):
         _init_one(chk, func, pi, path, out, cur)
     chk.trusted.update(I.assumed_used)
-    chk.add(Ob(func, "cover", "pre", results[0][0].hyps, z3.BoolVal(True), expect="sat"))
+    chk.add(Ob(func, "cover", "pre", cover_hyps(results), z3.BoolVal(True), expect="sat"))
 
 
 def _init_one(chk, func, pi, path, out, cur):
@@ -105,7 +105,7 @@ def call_obligations(chk, mod, cls):
     results = I.run_function(func, mk)
     for pi, (path, out, obls, writes, cur) in enumerate(results):
         _call_one(chk, func, pi, path, out, obls, cur)
-    chk.add(Ob(func, "cover", "pre", results[0][0].hyps, z3.BoolVal(True), expect="sat"))
+    chk.add(Ob(func, "cover", "pre", cover_hyps(results), z3.BoolVal(True), expect="sat"))
     chk.trusted.update(I.assumed_used)
 
 
@@ -197,7 +197,7 @@ def isoptional_obligations(chk):
     results = I.run_function(func, mk)
     for pi, (path, out, obls, writes, cur) in enumerate(results):
         _isopt_one(chk, func, pi, path, out, cur, members, nmem, NONE_T)
-    chk.add(Ob(func, "cover", "pre", results[0][0].hyps, _z3.BoolVal(True), expect="sat"))
+    chk.add(Ob(func, "cover", "pre", cover_hyps(results), _z3.BoolVal(True), expect="sat"))
     chk.trusted.update(I.assumed_used)
 
 
